@@ -4,9 +4,10 @@ cd "$(dirname "$0")/.."
 TIER="${1:-quick}"
 for id in $(python3 -c "import json;print(' '.join(c['property_id'] for c in json.load(open('MANIFEST.json'))['checks']))"); do
     start=$(date +%s.%N)
-    out=$(./check.sh "$id" "$TIER" 2>/dev/null)
+    out=$(./check.sh "$id" "$TIER" 2>&1)
     code=$?
     end=$(date +%s.%N)
     printf "%s exit=%s %6.1fs  %s\n" "$id" "$code" "$(echo "$end - $start" | bc)" "$(echo "$out" | grep -E "^C[0-9]+ " | tail -1)"
-    echo "$out" | grep -E "^(VIOLATION|KNOWN-FINDING)" | head -3
+    echo "$out" | grep -E "^(VIOLATION|KNOWN-FINDING|MACHINERY)" | head -3
+    echo "$out" | grep -E "^\[C" | awk '{print "      " $0}' | sed -E 's/ +states=/ states=/; s/ +transitions=[0-9]+ +/ /' | awk '{ if ($NF+0 >= 3.0) print }'
 done
